@@ -63,7 +63,7 @@ var staticHeaders = http.Header{
 // histories
 
 type step struct {
-	Kind string // init | op | notify | provider | push-roots | push-unknown | terminate
+	Kind string // init | init-fail | op | notify | provider | push-roots | push-unknown | terminate
 	Op   string // for Kind == op: the request method
 }
 
@@ -104,6 +104,11 @@ func randomHistory(client string, rng interface{ Intn(int) int }) []step {
 	return h
 }
 
+// retryHistory: a first handshake that fails, then the given history (which starts with the second handshake).
+func retryHistory(rest []step) []step {
+	return append([]step{{Kind: "init-fail"}}, rest...)
+}
+
 func histString(h []step) string {
 	var p []string
 	for _, s := range h {
@@ -123,6 +128,7 @@ type runSpec struct {
 	client string
 	cfg    cfg
 	failAt int
+	retry  string // "": plain history; "503" | "veto" | "refuse": how the first handshake of a retry history fails
 	hist   []step
 	label  string // canonical | random-<n>
 }
@@ -154,6 +160,10 @@ type runResult struct {
 	newErr     string
 	watchdogs  []string
 	initFailed bool
+	hsTok      string // context token of the handshake that succeeded ("": none did)
+	staleTok   string // context token of the failed first handshake of a retry history
+	broken     string // the scripted failure of the first handshake did not happen
+	noStream   bool   // Streamable: no listening-stream GET followed the successful handshake
 }
 
 type rootsProv struct{ roots []mcp.Root }
@@ -162,8 +172,10 @@ func (p rootsProv) GetRoots() []mcp.Root { return p.roots }
 
 const watchdog = 10 * time.Second
 
-func waitUntil(cond func() bool) bool {
-	deadline := time.Now().Add(watchdog)
+func waitUntil(cond func() bool) bool { return waitFor(watchdog, cond) }
+
+func waitFor(d time.Duration, cond func() bool) bool {
+	deadline := time.Now().Add(d)
 	for {
 		if cond() {
 			return true
@@ -193,8 +205,23 @@ func execute(sp runSpec) *runResult {
 			res.served, res.msgPath = "/custom/sse-x", "/custom/msg-x"
 		}
 	}
+	prefix := fmt.Sprintf("r%d/", runCounter) // tokens are unique per run: a value leaking from an earlier client is visible
 	srv := newRefServer(sp.client, res.served, res.msgPath, res.sid)
+	if sp.retry == "refuse" {
+		if e := srv.reserve(); e != nil {
+			res.newErr = "reserve address: " + e.Error()
+			return res
+		}
+	} else {
+		srv.start()
+	}
+	if sp.retry == "503" {
+		srv.setFail503(1)
+	}
 	l := newRunLog(sp.client, sp.failAt)
+	if sp.retry == "veto" {
+		l.vetoToken = prefix + "attempt-1"
+	}
 	defer func() {
 		srv.close()
 		l.closeIdle()
@@ -235,9 +262,12 @@ func execute(sp runSpec) *runResult {
 
 	call := func(name, kind string, fn func(ctx context.Context) error) *opRec {
 		idx := len(res.ops)
-		tok := fmt.Sprintf("op-%d", idx)
+		tok := fmt.Sprintf("%sop-%d", prefix, idx)
 		if name == "Initialize" {
-			tok = "handshake"
+			tok = prefix + "handshake"
+			if sp.retry != "" {
+				tok = fmt.Sprintf("%sattempt-%d", prefix, idx+1)
+			}
 		}
 		op := &opRec{Idx: idx, Name: name, Kind: kind, Token: tok, From: srv.count()}
 		res.ops = append(res.ops, op)
@@ -268,6 +298,23 @@ func execute(sp runSpec) *runResult {
 			break
 		}
 		switch st.Kind {
+		case "init-fail":
+			op := call("Initialize", "initialize", func(ctx context.Context) error {
+				_, e := cl.Initialize(ctx, &mcp.InitializeRequest{})
+				return e
+			})
+			res.staleTok = op.Token
+			if op.Err == "" {
+				res.broken = "the first handshake succeeded although it was scripted to fail (" + sp.retry + ")"
+				res.initFailed = true
+				break
+			}
+			if sp.retry == "refuse" {
+				if e := srv.startReserved(); e != nil {
+					res.watchdogs = append(res.watchdogs, "could not reopen the listener on the reserved address: "+e.Error())
+					res.initFailed = true
+				}
+			}
 		case "init":
 			op := call("Initialize", "initialize", func(ctx context.Context) error {
 				_, e := cl.Initialize(ctx, &mcp.InitializeRequest{})
@@ -277,12 +324,20 @@ func execute(sp runSpec) *runResult {
 				res.initFailed = true
 				break
 			}
+			res.hsTok = op.Token
 			if sp.client == clLegacy {
 				streamUp = srv.streamOpen()
 				break
 			}
 			// Streamable: the listening stream is opened in the background after the handshake.
-			ok := waitUntil(func() bool {
+			grace := watchdog
+			if sp.retry == "503" {
+				// An initialize answered without a session id (here: the 503) makes the client switch its
+				// listening stream off for good; whether a GET follows the retried handshake is outside the
+				// statement, so its absence only shortens the history (no pushes), it is not judged.
+				grace = 300 * time.Millisecond
+			}
+			ok := waitFor(grace, func() bool {
 				if failedSince(0, func(k string) bool { return k == kGetStream }) {
 					return true
 				}
@@ -293,7 +348,9 @@ func execute(sp runSpec) *runResult {
 				}
 				return false
 			})
-			if !ok {
+			if !ok && sp.retry == "503" {
+				res.noStream = true
+			} else if !ok {
 				res.watchdogs = append(res.watchdogs, "the listening-stream GET was never observed after Initialize")
 			}
 			streamUp = srv.streamOpen()
@@ -431,7 +488,7 @@ func (j *judge) run(res *runResult) {
 	client := sp.client
 	mask := c.mask()
 	desc := map[string]interface{}{"client": client, "configuration": c.String(), "configuration_mask": mask,
-		"history": sp.label + ": " + histString(sp.hist), "before_request_fails_at": sp.failAt,
+		"history": sp.label + ": " + histString(sp.hist), "before_request_fails_at": sp.failAt, "first_handshake_fails_by": sp.retry,
 		"served_path": res.served, "announced_message_path": res.msgPath, "session_id": res.sid}
 	viol := func(kind, symptom, what string, extra map[string]interface{}) {
 		w := map[string]interface{}{}
@@ -445,6 +502,26 @@ func (j *judge) run(res *runResult) {
 	}
 	if res.newErr != "" {
 		r.Fatal("client construction failed (%s, mask %d): %s", client, mask, res.newErr)
+	}
+	if res.broken != "" && sp.retry != "veto" {
+		r.Fatal("%s mask %d: %s", client, mask, res.broken)
+	}
+	// ctxSymptom names a context mismatch; a token of the failed first handshake is "stale".
+	ctxSymptom := func(who, got string) string {
+		if sp.retry != "" && res.staleTok != "" && got == res.staleTok {
+			return who + "-stale-context|after-failed-handshake"
+		}
+		return who + "-wrong-context"
+	}
+	// expectedTok: the context token a request of this kind, issued while operation curOp ran, must carry.
+	expectedTok := func(kind string, curOp int) string {
+		if isBackground(kind) {
+			return res.hsTok
+		}
+		if curOp >= 0 && curOp < len(res.ops) {
+			return res.ops[curOp].Token
+		}
+		return ""
 	}
 	for _, w := range res.watchdogs {
 		r.Inconclusive(fmt.Sprintf("%s mask=%d %s failAt=%d: %s", client, mask, sp.label, sp.failAt, w))
@@ -467,10 +544,14 @@ func (j *judge) run(res *runResult) {
 			opOf[n] = op
 		}
 	}
-	var failed *beforeRec
+	var failedAll []*beforeRec
+	vetoedOp := map[int]bool{}
 	for _, b := range res.before {
 		if b.Failed {
-			failed = b
+			failedAll = append(failedAll, b)
+			if !isBackground(b.Kind) {
+				vetoedOp[b.CurOp] = true
+			}
 		}
 	}
 	issuedAt := -1 // arrival index of the initialize request that was answered with a session id
@@ -496,6 +577,10 @@ func (j *judge) run(res *runResult) {
 		r.Count("n|"+client+"|"+s.Kind, 1)
 		r.SetAdd("kinds", client+":"+s.Kind)
 		r.Distinct(fmt.Sprintf("%s|%s|%d", client, s.Kind, mask))
+		if sp.retry != "" {
+			r.Count("retry_requests_judged", 1)
+			r.Distinct(fmt.Sprintf("retry-%s|%s|%s|%d", sp.retry, client, s.Kind, mask))
+		}
 		befs := s.Header.Values(hdrBefore)
 		seqs := s.Header.Values(hdrSeq)
 		for _, b := range befs {
@@ -516,7 +601,7 @@ func (j *judge) run(res *runResult) {
 		expTok := ""
 		switch {
 		case isBackground(s.Kind):
-			expTok = "handshake"
+			expTok = res.hsTok
 			op = nil
 		case op != nil:
 			expTok = op.Token
@@ -588,17 +673,24 @@ func (j *judge) run(res *runResult) {
 			case bj.Failed:
 				// judged below (nothing may be sent)
 			case expTok != "" && bj.Token != expTok:
-				fail("before-request-wrong-context", fmt.Sprintf("before-request saw context token %q, the calling operation's is %q", bj.Token, expTok))
+				fail(ctxSymptom("before-request", bj.Token), fmt.Sprintf("before-request saw context token %q, the calling operation's is %q", bj.Token, expTok))
 			}
 		} else if len(befs) != 0 {
 			r.Fatal("request tagged by before-request although none is configured: %+v", view)
+		}
+		// (6) the configured handler is handed the same context values
+		if hj != nil && expTok != "" && hj.Token != expTok {
+			fail(ctxSymptom("handler", hj.Token), fmt.Sprintf("the request handler saw context token %q, the calling operation's is %q", hj.Token, expTok))
 		}
 		if bad == 0 {
 			r.Count("requests_conforming", 1)
 			r.SetAdd("kinds_conforming", client+":"+s.Kind)
 		}
-		if mask == 15 && sp.failAt == 0 && sp.label == "canonical" {
+		if mask == 15 && sp.failAt == 0 && sp.label == "canonical" && (sp.retry == "" || sp.retry == "503") {
 			key := client + "|" + s.Kind
+			if sp.retry != "" {
+				key = "retry|" + key + "|" + strconv.Itoa(s.Status)
+			}
 			if _, ok := j.samples[key]; !ok {
 				j.samples[key] = map[string]interface{}{"client": client, "configuration": c.String(), "request_at_server": view,
 					"before_request_log": bj, "handler_log": hj, "operation": op, "expected_ctx_token": expTok, "conforming": bad == 0}
@@ -612,12 +704,27 @@ func (j *judge) run(res *runResult) {
 		}
 	}
 	for _, b := range res.before {
-		if !b.Failed && seenBefore[strconv.Itoa(b.N)] == 0 {
-			viol(b.Kind, "lost-after-before-request", "request passed the before-request function but never reached the server", map[string]interface{}{"before_request_log": b})
+		if seenBefore[strconv.Itoa(b.N)] != 0 {
+			continue
 		}
+		// never reached the server (vetoed, or refused connection): the context is judged from the log alone
+		if exp := expectedTok(b.Kind, b.CurOp); exp != "" && b.Token != exp {
+			r.Eval(1)
+			viol(b.Kind, ctxSymptom("before-request", b.Token), fmt.Sprintf("before-request saw context token %q for a request issued by the call with token %q", b.Token, exp),
+				map[string]interface{}{"before_request_log": b, "expected_ctx_token": exp})
+		}
+		if b.Failed || (sp.retry == "refuse" && b.CurOp == 0) {
+			continue
+		}
+		viol(b.Kind, "lost-after-before-request", "request passed the before-request function but never reached the server", map[string]interface{}{"before_request_log": b})
 	}
 	for _, h := range res.handler {
 		if seenSeq[strconv.Itoa(h.Seq)] == 0 {
+			if exp := expectedTok(h.Kind, h.CurOp); exp != "" && h.Token != exp {
+				r.Eval(1)
+				viol(h.Kind, ctxSymptom("handler", h.Token), fmt.Sprintf("the request handler saw context token %q for a request issued by the call with token %q", h.Token, exp),
+					map[string]interface{}{"handler_log": h, "expected_ctx_token": exp})
+			}
 			if h.Err != "" || !h.Done {
 				r.Count("handler_transport_errors", 1)
 				continue
@@ -625,13 +732,38 @@ func (j *judge) run(res *runResult) {
 			viol(h.Kind, "lost-after-handler", "request was performed by the request handler but never reached the server", map[string]interface{}{"handler_log": h})
 		}
 	}
-	// operations must succeed (other than the one whose request was vetoed)
+	// retry histories: the first handshake fails by script; the second may fail only if the client cannot be re-initialised
+	if sp.retry != "" {
+		r.Eval(1)
+		r.Count("retry_histories", 1)
+		r.SetAdd("retry_modes", client+":"+sp.retry)
+		switch {
+		case len(res.ops) < 2:
+			r.Count("retry_second_handshake_not_attempted", 1)
+		case res.ops[1].Err == "":
+			r.Count("retry_second_handshake_ok|"+client+"|"+sp.retry, 1)
+			r.Distinct(fmt.Sprintf("retry-%s|%s|second-handshake-ok|%d", sp.retry, client, mask))
+			if res.noStream {
+				r.Count("retry_no_listening_stream_after_503", 1)
+			}
+		default:
+			r.Count("retry_second_handshake_failed|"+client+"|"+sp.retry, 1)
+			if res.ops[1].HasBoom {
+				viol("initialize", "retry-vetoed|after-failed-handshake", "the second Initialize, whose context satisfies the before-request function, failed with the before-request error of the first: "+trunc(res.ops[1].Err, 200),
+					map[string]interface{}{"operation": res.ops[1], "before_request_log_all": res.before})
+			}
+		}
+	}
+	// operations must succeed (other than the ones whose request was vetoed)
 	for _, op := range res.ops {
 		if op.Err == "" {
 			continue
 		}
-		if failed != nil && failed.CurOp == op.Idx && !isBackground(failed.Kind) {
+		if vetoedOp[op.Idx] {
 			continue
+		}
+		if sp.retry != "" && op.Name == "Initialize" {
+			continue // first: fails by script; second: accepted when the client cannot be re-initialised (counted above)
 		}
 		if op.Deadline {
 			r.Inconclusive(fmt.Sprintf("%s mask=%d %s: %s hit the 15 s watchdog: %s", client, mask, sp.label, op.Name, op.Err))
@@ -662,16 +794,19 @@ func (j *judge) run(res *runResult) {
 	if c.B {
 		r.Max("before_request_calls_per_history", int64(len(res.before)))
 	}
-	// second pass: the vetoed request
-	if sp.failAt > 0 {
-		if failed == nil {
-			r.Count("veto_point_not_reached", 1)
-			return
-		}
+	// vetoed requests: nothing may be sent and the issuing operation must return the error
+	if sp.failAt > 0 && len(failedAll) == 0 {
+		r.Count("veto_point_not_reached", 1)
+	}
+	for _, failed := range failedAll {
 		r.Eval(1)
 		r.Count("vetoed_requests_judged", 1)
 		r.SetAdd("vetoed_kinds", client+":"+failed.Kind)
-		r.Distinct(fmt.Sprintf("veto|%s|%s|%d", client, failed.Kind, mask))
+		if sp.retry != "" {
+			r.Distinct(fmt.Sprintf("retry-veto|%s|%s|%d", client, failed.Kind, mask))
+		} else {
+			r.Distinct(fmt.Sprintf("veto|%s|%s|%d", client, failed.Kind, mask))
+		}
 		tag := strconv.Itoa(failed.N)
 		extra := map[string]interface{}{"before_request_log": failed}
 		sent := false
@@ -771,13 +906,30 @@ func main() {
 			r.SetAdd(fmt.Sprintf("veto_positions_%s", b.sp.client), strconv.Itoa(k))
 		}
 	}
+	// third pass: the handshake fails first and is retried on the same client with a different context
+	retryRandom := r.Pick(0, 2)
+	for _, client := range clients {
+		for mask := 0; mask < 32; mask++ {
+			c := cfgOf(mask)
+			rng := r.Rand(fmt.Sprintf("retry-%s-%d", client, mask))
+			for _, mode := range []string{"503", "veto", "refuse"} {
+				if mode == "veto" && !c.B {
+					continue
+				}
+				j.run(execute(runSpec{client: client, cfg: c, retry: mode, hist: retryHistory(canonicalHistory(client)), label: "canonical"}))
+				for k := 0; k < retryRandom; k++ {
+					j.run(execute(runSpec{client: client, cfg: c, retry: mode, hist: retryHistory(randomHistory(client, rng)), label: fmt.Sprintf("random-%d", k)}))
+				}
+			}
+		}
+	}
 	if fmt.Sprintf("%p", mcp.NewHTTPReqHandler) != fmt.Sprintf("%p", origFactory) {
 		r.Fatal("NewHTTPReqHandler was not restored")
 	}
 
 	// samples: a few recorded requests with their joined logs
 	for _, key := range []string{clStream + "|initialize", clStream + "|" + kGetStream, clStream + "|" + kRootsAnswer, clStream + "|" + kDelete,
-		clLegacy + "|" + kConnect, clLegacy + "|" + kRootsAnswer} {
+		clLegacy + "|" + kConnect, "retry|" + clLegacy + "|" + kConnect + "|200"} {
 		if s, ok := j.samples[key]; ok {
 			r.Sample(s)
 		}
@@ -795,6 +947,14 @@ func main() {
 	r.Require(r.Counter("server_requests_answered") > 0, "no server-issued request was ever answered")
 	r.Require(r.Counter("vetoed_requests_judged") > 0, "no vetoed request was judged")
 	r.Require(r.Counter("veto_errors_returned") > 0, "no operation ever returned the before-request error")
+	for _, cl := range clients {
+		for _, mode := range []string{"503", "veto", "refuse"} {
+			r.Require(r.Counter("retry_second_handshake_ok|"+cl+"|"+mode) > 0, "no retried handshake of the %s client succeeded after a first one failed by %s", cl, mode)
+		}
+	}
+	if n := r.Counter("retry_no_listening_stream_after_503"); n > 0 {
+		r.Note(fmt.Sprintf("observation outside the statement: in %d retry histories the Streamable client opened no listening stream after the retried handshake: an initialize answered 503 (no session id) sets isStateless/enableGetSSE=false in send() before the status check, and the later successful handshake does not switch GET SSE back on", n))
+	}
 	if n := r.Counter("factory_option_received_more_than_once"); n > 0 {
 		r.Note(fmt.Sprintf("observation outside the statement: in %d runs the Streamable client passed each WithHTTPReqHandlerOption value to NewHTTPReqHandler twice (transportConfig copy + transport option)", n))
 	}
@@ -803,7 +963,9 @@ func main() {
 		"history = Initialize, (listening stream up), ListTools, CallTool, ListPrompts, GetPrompt, ListResources, ReadResource, roots list_changed notification, SetRootsProvider, server-issued roots/list and unknown-method requests answered, TerminateSession (Streamable), Close; "+
 		"plus seeded random histories per configuration (quick 2, thorough 12: random order / repetition of operations, pushes and provider toggles). Every HTTP request recorded by the reference server is one evaluation, judged for static headers, session id, path, handler tag, before-request tag and context token. "+
 		"Second pass: before-request returns an error on its k-th invocation (every k of the canonical history in each of the 16 configurations with before-request x 2 clients; random histories: two seeded k each, in thorough every k for 4 of them per configuration): nothing may be sent and the issuing operation must return that error. "+
-		"A case is distinct by (client, request kind, configuration bitmask), vetoed cases by (client, vetoed request kind, bitmask); all judged requests count, conforming or not.",
+		"Third pass (all 32 configurations x 2 clients; thorough adds 2 random histories each): Initialize #1 (token attempt-1) fails because the server answers its first request with 503, because before-request vetoes contexts carrying attempt-1 (configurations with before-request), or because the listener is closed (reopened on the same address afterwards); Initialize #2 on the same client object (token attempt-2), then the usual history. "+
+		"Foreground requests must show the token of their own call, background requests the token of the handshake that succeeded, in the before-request log and in the handler log; a token of the failed attempt is reported as stale. Context tokens are unique per run, so a value leaking from an earlier, closed client of the same process would also be seen. "+
+		"A case is distinct by (client, request kind, configuration bitmask), vetoed cases by (client, vetoed request kind, bitmask), retry cases by (failure mode, client, request kind, bitmask); all judged requests count, conforming or not.",
 		[]string{
 			"there is no public option for a custom http.Client; the recording request handler substitutes its own client, so 'through the configured handler' also covers 'with the configured client'",
 			"operations of one client are issued sequentially; a foreground request is attributed to the call during which it arrived at the server, background requests (listening-stream GET, answers to server-issued requests) by kind",
@@ -811,5 +973,8 @@ func main() {
 			"no retry option is configured, so one request per operation is expected but not required",
 			"configurations run one after another because NewHTTPReqHandler is a package variable",
 			"a server-issued request whose answer never arrives within 10 s is inconclusive, not a violation",
+			"the context handed to the configured request handler is held to the same rule as the one handed to before-request (the statement names only the latter explicitly); reported under separate handler-* symptoms",
+			"a second Initialize that fails after a failed first one is accepted (client not re-initialisable) unless it fails with the before-request error although its own context passes the before-request function",
+			"after a 503 on initialize the Streamable client may not open a listening stream; the harness waits 300 ms for it and otherwise skips the server pushes of that history (coverage, not verdict)",
 		})
 }
